@@ -6,8 +6,8 @@ C16 driver. Case: `(w <schema and objs as in C15> (field f) (obj a) (init x…) 
 (insert i x) (setitem i x) (assign x…) (assignSelf) (iadd x…) (iaddAlias x…)))` (`add`/`update` are accepted as
 synonyms of `append`/`extend` for set fields).
 Output `C[contents]|R[f:s:t,…]`: contents in order for a list field, sorted for a set field; relation triples sorted.
-`model=` is the code as it is (all quirks on), `model_fixed=` all quirks off, `model_fix_setter=` /
-`model_fix_inplace=` the two partial repairs.
+`model=` is the code as it is (every recorded quirk is repaired: all quirks off); `before_fix=` /
+`before_slice_fix=` show earlier behaviour and are not admissible alternatives.
 -/
 namespace KrroodVerif.Drive.C16
 open KrroodVerif.PD KrroodVerif.Drive.C15
@@ -185,10 +185,10 @@ def run (s : Sexp) : String :=
       let sp := specT key isSet σ0 ops
       let cl := closure R fuel (facts sp)
       let spec := if cl.2 then showT sp cl.1 else "spec-diverged"
-      let asIs := runT key Quirks.none TQuirks.asIs later isSet σ0 ops
-      let trig := (if trigAdoptShares ops then ["F-C16-5"] else []) ++ (if asIs.broke then ["F-C16-6"] else [])
-      s!"model={out TQuirks.asIs}\tspec={spec}\ttrig={",".intercalate trig}\tmodel_fixed={out TQuirks.none}" ++
-      s!"\tmodel_fix_share={out ⟨false, true⟩}\tmodel_fix_ctor={out ⟨true, false⟩}"
+      -- F-C16-5 (the first assignment adopted another instance's container) and F-C16-6 (constructor-time inference
+      -- into a field not yet initialised) are repaired in /repo: the model tied to the code is `TQuirks.none`
+      -- (C16_two_full); the old behaviour is shown under `before_fix=`
+      s!"model={out TQuirks.none}\tspec={spec}\ttrig=\tbefore_fix={out TQuirks.asIs}"
     | _, _, _, _, _, _, _ => "error=bad-case"
   | _ => "error=bad-case"
 
